@@ -34,7 +34,9 @@ def floors(m, tier):
             "branch several without old, search": (c.get("branch:several_without_old_search", 0), 20),
             "observed applied": (c.get("obs:applied", 0), 200),
             "observed refused": (c.get("obs:refused", 0), 200),
-            "M-query evaluations": (m.monitor.get("M-query", 0), BUDGET[tier] // 4)}
+            "M-query evaluations": (m.monitor.get("M-query", 0), BUDGET[tier] // 4),
+            "'?' separated queries": (c.get("question_mark_separator", 0), 100),
+            "queries chained on a refused query": (c.get("chained_on_refused", 0), 100)}
 
 
 def run(snap, tier, seed, t0, replay):
@@ -217,7 +219,10 @@ def one_case(rec, model, vocab, Sid, rng, t, s, pairs_q, pairs_kw, mode):
         return
     case = {"s": s, "mode": mode}
     if mode in ("string", "get_with_query"):
-        q = "&".join("%s=%s" % (k, v) for k, v in pairs_q)
+        sepq = "?" if (len(pairs_q) > 1 and len(s) % 5 == 0) else "&"      # '?' is a documented alternative to '&'
+        q = sepq.join("%s=%s" % (k, v) for k, v in pairs_q)
+        if sepq == "?":
+            rec.count("question_mark_separator")
         case["q"] = q
         try:
             r = Sid(x.uri + "?" + q) if mode == "string" else x.get_with(query=q)
@@ -225,6 +230,19 @@ def one_case(rec, model, vocab, Sid, rng, t, s, pairs_q, pairs_kw, mode):
             rec.violation("query_raised", case, repr(e))
             return
         judge_query(rec, model, x.type, x.fields, str(x), q, r.type, r.fields, str(r), case, "query")
+        if "?" in str(r) and len(pairs_q) >= 1:
+            # chaining a second query onto a Sid whose first query was refused: the whole tail is ONE query
+            free = [k for k in x.fields if k not in dict(pairs_q)]
+            if not free:
+                return
+            k2 = free[len(s) % len(free)]
+            q2 = "%s=%s" % (k2, x.fields[k2])
+            try:
+                r2 = r.get_with(query=q2)
+                rec.count("chained_on_refused")
+                judge_query(rec, model, x.type, x.fields, str(x), q + "?" + q2, r2.type, r2.fields, str(r2), dict(case, chained=q2), "query")
+            except Exception as e:
+                rec.violation("query_raised", dict(case, chained=q2), repr(e))
     else:
         kw = dict(pairs_kw)
         try:
